@@ -712,7 +712,43 @@ def sp_has_field(interp, st, args, kwargs, node):
     return isinstance(args[0], Rec) and args[1] in args[0].fields
 
 
+def _unravel(which):
+    def fn(interp, st, args, kwargs, node):
+        """unravel_row(k, C) = k // C, unravel_col(k, C) = k % C, ravel_index(i, j, C) = i * C + j (row-major index algebra; the solver sees
+        them through the axioms of npmodel4.unravel_axioms, theorems of these definitions checked in lemmas/Lattice.lean)"""
+        vals = [as_int(a) for a in args]
+        if all(isinstance(v, int) and not isinstance(v, bool) for v in vals):
+            if which == 0:
+                return vals[0] // vals[1]
+            if which == 1:
+                return vals[0] % vals[1]
+            return vals[0] * vals[2] + vals[1]
+        if isinstance(vals[-1], int) and not isinstance(vals[-1], bool) and vals[-1] > 0:
+            # a constant column count: plain (linear) integer arithmetic
+            c = vals[-1]
+            if which == 0:
+                return to_z3(vals[0]) / c
+            if which == 1:
+                return to_z3(vals[0]) % c
+            return to_z3(vals[0]) * c + to_z3(vals[1])
+        LEMMAS_USED.add("unravel: k = (k // C) * C + k % C with 0 <= k % C < C; (i*C + j) // C = i and (i*C + j) % C = j for 0 <= j < C; k < R*C iff k // C < R (row-major index algebra)")
+        return M.unravel_fns()[which](*[to_z3(v) for v in vals])
+
+    return fn
+
+
+def sp_unravel_lemma(interp, st, args, kwargs, node):
+    """LEMMA: the row-major index algebra of an R x C grid (see npmodel4.unravel_axioms)"""
+    LEMMAS_USED.add("unravel: k = (k // C) * C + k % C with 0 <= k % C < C; (i*C + j) // C = i and (i*C + j) % C = j for 0 <= j < C; k < R*C iff k // C < R (row-major index algebra)")
+    R, C = args
+    return z3.And(*M.unravel_axioms(R, C))
+
+
 SPEC_FUNCTIONS = {
+    "unravel_row": _unravel(0),
+    "unravel_col": _unravel(1),
+    "ravel_index": _unravel(2),
+    "unravel_lemma": sp_unravel_lemma,
     "rgb_is": sp_rgb_is,
     "has_field": sp_has_field,
     "has_key": sp_has_key,
